@@ -896,3 +896,178 @@ def run_threads(run, drv):
         run_inplace_identity(run)
         run_existsok(run)
         run_apply_lazy(run)
+
+
+# ------------------------------------------------------------------------------------------- the metadata task of a non-tensor entry
+def run_metadata_race(run, drv=None, tag="c12m"):
+    """The tensorclass `save_metadata` writer task of a non-tensor entry against the thread that called memmap()/save()/memmap_():
+    the schedule is *forced* (the task is held at a chosen point of its loop with hooks on the module-level helpers it calls, the
+    caller is held until the task has finished), the outcome (raise / keys in meta.json / keys in other.pickle) is compared with the
+    Lean model `C10.MetaTask` (when a C10 driver is given) and with what num_threads=0 does (the property: every legal schedule gives
+    the single-threaded result). The failing schedules are the recorded finding *-nontensor-metadata-task-race."""
+    import pickle
+    import sys
+    import threading
+    from concurrent.futures.thread import ThreadPoolExecutor as RealTPE
+    from tensordict import NonTensorData, TensorDict
+    from c12_fns import RACE_MSG, RACE_SITE
+    tcm = sys.modules["tensordict.tensorclass"]
+    B = sys.modules["tensordict.base"]
+    quick = run.tier == "quick"
+    rng = run.rng
+    root = BUILD / "tmp" / f"{tag}_{run.seed}_{run.tier}"
+    shutil.rmtree(root, ignore_errors=True)
+    root.mkdir(parents=True, exist_ok=True)
+    INF = 99
+    WAIT = 20.0
+    main_thread = threading.current_thread()
+
+    def cls_of(v):
+        return "null" if v is None else ("json" if tcm._is_json_serializable(tcm._from_shared_nontensor(v)) else "pickle")
+
+    def forced(td, api, sched, d, **kw):
+        """sched: ("first",) | ("before", release) | ("loop", k, release); release: "after-add" | "after-set" """
+        release = sched[-1] if sched[0] != "first" else None
+        ev = threading.Event()
+        state = {"calls": 0, "timed_out": False, "held": False, "task": None}
+        orig_fsn, orig_submit, orig_ft = tcm._from_shared_nontensor, RealTPE.submit, NonTensorData.__dict__["_from_tensordict"]
+
+        held_ev = threading.Event()
+
+        def hold():
+            state["held"] = True
+            held_ev.set()
+            if not ev.wait(WAIT):
+                state["timed_out"] = True
+
+        def fsn(v):
+            if threading.current_thread() is not main_thread:
+                i = state["calls"]
+                state["calls"] += 1
+                if sched[0] == "loop" and i == sched[1]:
+                    hold()
+            return orig_fsn(v)
+
+        def opener(*a, **k):
+            if threading.current_thread() is not main_thread and sched[0] == "before" and not state["held"] and str(a[0]).endswith("meta.json"):
+                hold()
+            return open(*a, **k)
+
+        def submit(self, fn, *a, **k):
+            f = orig_submit(self, fn, *a, **k)
+            if getattr(fn, "__name__", "") == "save_metadata" and getattr(fn, "__module__", "") == "tensordict.tensorclass":
+                state["task"] = f
+            return f
+
+        def task_done():
+            f = state["task"]
+            if f is None:
+                state["timed_out"] = True
+                return
+            done, _ = _real_wait([f], timeout=WAIT)
+            if not done:
+                state["timed_out"] = True
+
+        def from_td(cls, *a, **k):
+            if sched[0] == "first":
+                task_done()
+            elif not held_ev.wait(WAIT):      # the caller goes on only once the task sits at the chosen point
+                state["timed_out"] = True
+            r = orig_ft.__func__(cls, *a, **k)
+            if release == "after-add":
+                ev.set()
+                task_done()
+            return r
+
+        def waiter(*a, **k):
+            ev.set()
+            return _real_wait(*a, **k)
+
+        ps = [mock.patch.object(tcm, "_from_shared_nontensor", fsn), mock.patch.object(tcm, "open", opener, create=True),
+              mock.patch.object(RealTPE, "submit", submit), mock.patch.object(NonTensorData, "_from_tensordict", classmethod(from_td)),
+              mock.patch.object(concurrent.futures, "wait", waiter), mock.patch.object(B, "wait", waiter)]
+        for p in ps:
+            p.start()
+        try:
+            try:
+                with time_limit(120):
+                    getattr(td, api)(d, num_threads=2, **kw)
+                out = None
+            except TimeoutError as e:
+                raise Infra(f"forced schedule timed out: {e}")
+            except RuntimeError as e:
+                if RACE_MSG not in str(e):
+                    raise
+                out = ["err"]
+        finally:
+            ev.set()
+            for p in reversed(ps):
+                p.stop()
+        if state["timed_out"] or (sched[0] != "first" and not state["held"]):
+            return None
+        return out or observe(d)
+
+    def observe(d):
+        meta = json.loads((d / "s" / "meta.json").read_text())
+        meta.pop("_type", None)
+        pk = d / "s" / "other.pickle"
+        pkeys = sorted(pickle.loads(pk.read_bytes())) if pk.exists() else []
+        return ["ok", [[k, "null" if v is None else "json"] for k, v in meta.items()], pkeys]
+
+    def variant(i):
+        if i == 0:
+            return TensorDict({"a": torch.arange(3.0), "s": NonTensorData("text", batch_size=[3])}, [3])
+        if i == 1:
+            return TensorDict({"s": NonTensorData(rng.randint(0, 99), batch_size=[2]), "n": {"x": torch.ones(2, 2)}}, [2])
+        if i == 2:
+            return TensorDict({"a": torch.zeros(2, dtype=torch.int16), "s": NonTensorData(slice(1, 2), batch_size=[2])}, [2])
+        # saved before: the non-tensor dict already holds every expected key and a `_metadata` with a Path
+        first = TensorDict({"a": torch.arange(2.0), "s": NonTensorData("again", batch_size=[2])}, [2]).memmap(root / f"first{rng.randint(0, 10**9)}")
+        return first
+
+    try:
+        n = 0
+        with warnings.catch_warnings():
+            warnings.simplefilter("ignore")
+            for vi in range(4):
+                probe = variant(vi).get("s")
+                d0 = [[k, cls_of(v)] for k, v in probe._non_tensordict.items()]
+                exp = sorted(type(probe).__expected_keys__)
+                for api in ("memmap", "save", "memmap_"):
+                    inplace = api == "memmap_"
+                    if inplace and vi == 3:
+                        continue      # a memory-mapped tensordict is locked: memmap_ again is another question
+                    ref_dir = root / f"ref{n}"
+                    kw = {"copy_existing": True} if vi == 3 else {}
+                    getattr(variant(vi), api)(ref_dir, num_threads=0, **kw)
+                    ref = observe(ref_dir)
+                    scheds = [("first",)] + [(kind, *k, rel) for rel in ("after-add", "after-set") for kind, k in [("before", ())] + [("loop", (j,)) for j in range(len(d0))]]
+                    if quick:
+                        scheds = scheds[:1] + rng.sample(scheds[1:], 4)
+                    for sched in scheds:
+                        n += 1
+                        d = root / f"f{n}"
+                        run.case(("metatask", vi, api, sched))
+                        got = forced(variant(vi), api, sched, d, **kw)
+                        if got is None:
+                            run.count("metatask.schedule_not_realised", 1)
+                            continue
+                        run.count("metatask.outcome", got[0])
+                        p = {"first": (INF, INF), "before": (0, INF), "loop": ((sched[1] if sched[0] == "loop" else 0) + 2, INF)}[sched[0]]
+                        if sched[-1] == "after-set":
+                            p = (p[0], p[0])
+                        case = {"non_tensor_dict": d0, "api": api, "schedule": list(sched), "p1": p[0], "p2": p[1]}
+                        if drv is not None:
+                            m = parse_sx(drv.ask(sx("c10.metatask", [list(e) for e in d0], list(exp), p[0], p[1], bool(inplace))))
+                            model = ["err"] if m[0] == "err" else ["ok", [[k, c] for k, c in m[1] if c != "pickle"], sorted(k for k, c in m[1] if c == "pickle")]
+                            run.corr("metadata_task(forced schedule)", case, got, model)
+                        if got == ref:
+                            run.oracle_ok(RACE_SITE)
+                        else:
+                            what = (f"{api}(num_threads=2) of a tensordict with a non-tensor entry, writer task held {sched}: "
+                                    + ("raised RuntimeError: " + RACE_MSG if got[0] == "err" else f"meta.json keys {got[1]}, other.pickle keys {got[2]}")
+                                    + f"; num_threads=0: meta.json keys {ref[1]}, other.pickle keys {ref[2]}")
+                            run.oracle_fail(RACE_SITE, case, what, f"metadata-race:forced:{api}:{'raise' if got[0] == 'err' else 'differs'}")
+                        shutil.rmtree(d, ignore_errors=True)
+    finally:
+        shutil.rmtree(root, ignore_errors=True)
